@@ -28,7 +28,7 @@ impl<A> ArcCell<A> {
 }
 // Arc::new(Mutex::new(Some(handle))): a new cell holding the join handle of that task
 #[verifier::external_body]
-pub fn arc_new<A>(m: CellMutex<A>, Tracked(w): Tracked<&mut World>) -> (r: ArcCell<A>)
+pub fn arc_new_cell<A>(m: CellMutex<A>, Tracked(w): Tracked<&mut World>) -> (r: ArcCell<A>)
     requires m.content() is Some,
     ensures !old(w).cells.dom().contains(r.cell()), *final(w) == (World { cells: old(w).cells.insert(r.cell(), true), ..*old(w) }), cell_task(r.cell()) == m.content()->0.task()
 { unimplemented!() }
